@@ -32,6 +32,8 @@ def write_spec(doc, path, fmt="json"):
     """fmt: json | yaml (block) | yaml-flow | text (doc is already text)"""
     if fmt == "json":
         text = json.dumps(doc, indent=1)
+    elif fmt == "json-tabs-yaml-name":
+        text = json.dumps(doc, indent="\t")   # what `jq --tab` writes; the file is called *.yaml by the caller
     elif fmt == "text":
         text = doc
     else:
